@@ -236,4 +236,57 @@ theorem exists_pos_of_total_pos : ∀ (l : List Th), 0 < total l → ∃ t, t < 
       obtain ⟨t, ht, hp⟩ := exists_pos_of_total_pos r hr
       exact ⟨t + 1, by simpa using ht, by simpa [thOf] using hp⟩
 
+/-! ### a nested enter/leave pair under an open outer transaction restores the state exactly -/
+
+theorem setTh_setTh : ∀ (t : Nat) (y z : Th) (l : List Th), setTh t z (setTh t y l) = setTh t z l
+  | _, _, _, [] => by simp [setTh]
+  | 0, _, _, _ :: _ => rfl
+  | t+1, y, z, x :: r => by simp [setTh, setTh_setTh t y z r]
+
+theorem setTh_self : ∀ (t : Nat) (l : List Th), setTh t (thOf t l) l = l
+  | _, [] => by simp [setTh]
+  | 0, _ :: _ => rfl
+  | t+1, x :: r => by simp [setTh, thOf, setTh_self t r]
+
+theorem pair_restores (s : St) (t : Nat) (ht : t < s.ths.length) :
+    step (step s (.enter t)) (.leave t) = s := by
+  have h1 : thOf t (setTh t { thOf t s.ths with opened := (thOf t s.ths).opened + 1 } s.ths)
+      = { thOf t s.ths with opened := (thOf t s.ths).opened + 1 } := thOf_setTh_same _ _ _ ht
+  cases s with
+  | mk counter resizing resizes ths =>
+    simp only [step] at h1 ⊢
+    rw [h1]
+    simp only [setTh_setTh, Nat.add_sub_cancel]
+    congr 1
+    exact setTh_self t ths
+
+/-- `k` consecutive nested operations (each a complete enter/leave pair) of thread `t` -/
+def nestedPairs (t : Nat) : Nat → List Act
+  | 0 => []
+  | k+1 => .enter t :: .leave t :: nestedPairs t k
+
+theorem run_nestedPairs (s : St) (t : Nat) (ht : t < s.ths.length) (hd : 0 < depth s t)
+    (hreg : (thOf t s.ths).reg = none) : ∀ k, runChecked s (nestedPairs t k) = some s
+  | 0 => rfl
+  | k+1 => by
+    have he1 : enabled s (.enter t) = true := by
+      simp only [enabled, Bool.and_eq_true, decide_eq_true_eq, Bool.or_eq_true, Bool.not_eq_true']
+      exact ⟨ht, Or.inr hd⟩
+    have hth : thOf t (step s (.enter t)).ths = { thOf t s.ths with opened := (thOf t s.ths).opened + 1 } := by
+      simp only [step]; exact thOf_setTh_same _ _ _ ht
+    have he2 : enabled (step s (.enter t)) (.leave t) = true := by
+      simp only [enabled, hth, length_step, Bool.and_eq_true, decide_eq_true_eq]
+      exact ⟨⟨ht, by omega⟩, by simp [hreg]⟩
+    simp only [nestedPairs, runChecked, he1, he2, if_true, pair_restores s t ht]
+    exact run_nestedPairs s t ht hd hreg k
+
+theorem runChecked_append : ∀ (a b : List Act) (s : St),
+    runChecked s (a ++ b) = (runChecked s a).bind (fun s' => runChecked s' b)
+  | [], _, _ => rfl
+  | x :: r, b, s => by
+    simp only [List.cons_append, runChecked]
+    by_cases he : enabled s x = true
+    · simp only [he, if_true]; exact runChecked_append r b _
+    · simp [he]
+
 end GV.TxCount
